@@ -103,6 +103,12 @@ class TracerReplayer:
     # ---- recording
     def start(self, recpt):
         al = self.al
+        # an unrelated graph, completed BEFORE the graph under test starts recording (evaluated later by "other_rec")
+        self.cgO = al.CGraph()
+        zO = al.Function(numpy.array([0.5, 1.5, 2.5]))
+        wO = al.sum(zO * zO * 3.0)
+        self.cgO.trace_off()
+        self.cgO.independentFunctionList = [zO]; self.cgO.dependentFunctionList = [wO]
         self.cg = al.CGraph()
         if self.rec_kind == "U":
             x0 = pt_to_utpm(al, recpt)
@@ -312,6 +318,11 @@ class TracerReplayer:
                     self.pb(e)
                 elif c == "other":
                     self.other(e)
+                elif c == "other_rec":
+                    g = self.cgO.gradient(numpy.array([1., 2., 3.]))
+                    v = self.cgO.function([numpy.array([1., 2., 3.])])[0]
+                    if not numpy.allclose(g, [6., 12., 18.]) or not numpy.allclose(v, 42.):
+                        raise Mismatch("other-graph", "unrelated graph gives %r, %r" % (g, v))
                 elif c == "drv":
                     self.drv(e)
             except Mismatch as m:
@@ -333,7 +344,7 @@ class TracerReplayer:
             s = "fwd:%s:D%d" % (e["kind"], e["pt"]["D"])
         else:
             s = c
-        prev = [h["c"] for h in self.hist[:n] if h["c"] in ("fwd", "pb", "drv", "other")]
+        prev = [h["c"] for h in self.hist[:n] if h["c"] in ("fwd", "pb", "drv", "other", "other_rec")]
         return "%s %s [program ops %s; after %s]" % (s, clause, ",".join(ops), ">".join(prev) or "recording")
 
 
@@ -643,6 +654,12 @@ def full_api_adjoint(rep, seed, n=80):
             ("symvec", lambda x: (lambda A: algopy.sum(algopy.symvec(A + A.T) * numpy.array([1., 2., 3.])))(algopy.reshape(x * x, (2, 2)))),
             ("prod", lambda x: algopy.prod(x)),
             ("buffer", lambda x: T_buffer(algopy, x)),
+            ("reshape_of_slice_view", lambda x: algopy.sum(algopy.reshape(algopy.reshape(x * x, (2, 2))[:, 0:1], (2, 1, 1)) * numpy.array([[[2.]], [[3.]]]))),
+            ("reshape_of_strided_view", lambda x: algopy.sum(algopy.reshape((x * x)[::2], (1, 2)) * numpy.array([[2., 3.]]))),
+            ("const_dot_x", lambda x: algopy.sum(algopy.dot(W22, algopy.reshape(x * x, (2, 2))) * W22.T)),
+            ("x_dot_const", lambda x: algopy.sum(algopy.dot(algopy.reshape(x * x, (2, 2)), W22) * W22.T)),
+            ("const_dot_vec", lambda x: algopy.sum(algopy.dot(W22, x[:2] * x[2:]) * W2)),
+            ("eigh_vectors", lambda x: (lambda A: algopy.sum(algopy.eigh(A + A.T + numpy.array([[3., 0.], [0., -4.]]))[1] * W22))(algopy.reshape(x, (2, 2)))),
             ("dot_mv", lambda x: algopy.sum(algopy.dot(algopy.reshape(x, (2, 2)), x[:2] * x[:2]) * W2)),
             ("dot_vm", lambda x: algopy.sum(algopy.dot(x[:2] * x[:2], algopy.reshape(x, (2, 2))) * W2)),
             ("reshape_noncontiguous", lambda x: algopy.sum(algopy.reshape(algopy.reshape(x * x, (2, 2)).T, (4,)) * numpy.array([1., 2., 3., 4.]))),
